@@ -520,6 +520,48 @@ fn family_cpio(g: &mut Gen<'_>, rng: &mut Rng, n_random: usize) {
 
 /// signature tags holding an OpenPGP packet header that announces a huge body (the packet parser of
 /// the pgp dependency allocates the announced length before reading)
+/// the 16 bytes a region tag points at are an index entry of their own (tag, type, offset, count)
+/// that no index-entry mutation reaches: boundary products over its four fields, in both headers
+fn family_region_trailer(g: &mut Gen<'_>, targets: &[(String, Vec<u8>)]) {
+    let mut bases: Vec<Vec<u8>> = vec![base_small()];
+    bases.extend(targets.iter().take(3).map(|(_, b)| b.clone()));
+    for b in &bases {
+        let Ok(p) = walk_package(b) else { continue };
+        for (h, region_tag) in [(&p.sig, tag::SIG_REGION), (&p.hdr, tag::HDR_REGION)] {
+            if h.il == 0 {
+                continue;
+            }
+            let e0 = h.start + 16;
+            let tg = u32::from_be_bytes([b[e0], b[e0 + 1], b[e0 + 2], b[e0 + 3]]);
+            if tg != region_tag {
+                continue;
+            }
+            let off = u32::from_be_bytes([b[e0 + 8], b[e0 + 9], b[e0 + 10], b[e0 + 11]]) as usize;
+            let store = h.start + 16 + 16 * h.il as usize;
+            let at = store + off;
+            if at + 16 > b.len() {
+                continue;
+            }
+            let il16 = 16 * h.il as i64;
+            let offsets: Vec<i64> = vec![0, 1, -1, -15, -16, -17, -il16, -il16 + 16, -il16 - 16, 16, il16, i32::MIN as i64, i32::MAX as i64];
+            for t in [region_tag, 0, 100, 1000, if region_tag == 62 { 63 } else { 62 }] {
+                for ty in [7u32, 0, 4, 6] {
+                    for o in &offsets {
+                        for c in [16u32, 0, 1, 15, 17, u32::MAX] {
+                            let mut m = b.clone();
+                            m[at..at + 4].copy_from_slice(&t.to_be_bytes());
+                            m[at + 4..at + 8].copy_from_slice(&ty.to_be_bytes());
+                            m[at + 8..at + 12].copy_from_slice(&(*o as i32).to_be_bytes());
+                            m[at + 12..at + 16].copy_from_slice(&c.to_be_bytes());
+                            g.push("region-trailer", m);
+                        }
+                    }
+                }
+            }
+        }
+    }
+}
+
 /// well-formed headers whose RELATED tags disagree with each other: a locale table longer or
 /// shorter than the i18n entries it indexes ("C" at every position), per-file arrays, dependency
 /// triples, changelog triples and scriptlet tag groups of unequal lengths or mixed types
@@ -548,6 +590,38 @@ fn family_cross_tags(g: &mut Gen<'_>, rng: &mut Rng, n_random: usize) {
                     items.push((tag::I18NTABLE, tv));
                 }
                 g.push("cross-tags:i18n-table", mk(items));
+            }
+        }
+    }
+    // file digests of exactly the length of their algorithm whose text is not hex: multi-byte
+    // characters at odd and even offsets, invalid UTF-8, NUL-free control characters, upper case
+    for (algo, len) in [(8u32, 64usize), (1, 32), (2, 40), (10, 128)] {
+        for (k, filler) in ["é", "語", "🦀", "\u{80}", "G", " ", "\u{7f}"].iter().enumerate() {
+            for at in [0usize, 1, 2, 3, len / 2, len / 2 + 1, len - filler.len().min(len), len.saturating_sub(filler.len() + 1)] {
+                let mut d: Vec<u8> = std::iter::repeat(b'a').take(len).collect();
+                let fb = filler.as_bytes();
+                if at + fb.len() <= len {
+                    d[at..at + fb.len()].copy_from_slice(fb);
+                }
+                if k == 3 {
+                    d[at.min(len - 1)] = 0xff; // not UTF-8 at all
+                }
+                let items = vec![
+                    (tag::NAME, Val::str("digest")),
+                    (tag::BASENAMES, Val::StrArray(vec![b"f".to_vec()])),
+                    (tag::DIRNAMES, Val::StrArray(vec![b"/".to_vec()])),
+                    (tag::DIRINDEXES, Val::Int32(vec![0])),
+                    (tag::FILEMODES, Val::Int16(vec![0o100644])),
+                    (tag::FILESIZES, Val::Int32(vec![0])),
+                    (tag::FILEMTIMES, Val::Int32(vec![0])),
+                    (tag::FILEFLAGS, Val::Int32(vec![0])),
+                    (tag::FILEUSERNAME, Val::StrArray(vec![b"root".to_vec()])),
+                    (tag::FILEGROUPNAME, Val::StrArray(vec![b"root".to_vec()])),
+                    (tag::FILELINKTOS, Val::StrArray(vec![vec![]])),
+                    (tag::FILEDIGESTS, Val::StrArray(vec![d])),
+                    (tag::FILEDIGESTALGO, Val::Int32(vec![algo])),
+                ];
+                g.push("cross-tags:digest-text", mk(items));
             }
         }
     }
@@ -688,6 +762,7 @@ fn run(ctx: &Ctx, rep: &Report) {
     family_garbage(&mut g, &mut rng, ctx.tier.pick(2000, 50_000));
     family_pgp(&mut g);
     family_cross_tags(&mut g, &mut rng, ctx.tier.pick(1500, 60_000));
+    family_region_trailer(&mut g, &targets);
     family_storms(&mut g, &targets, ctx.tier.pick(20_000, 400_000), &mut rng);
     family_mutations(&mut g, &targets, thorough, &mut rng);
     g.flush();
